@@ -413,8 +413,8 @@ func (c *DefaultCtx) Cookie(cookie *Cookie) {
 	fcookie := fasthttp.AcquireCookie()
 	fcookie.SetKey(cookie.Name)
 	fcookie.SetValue(removeNewLines(cookie.Value))
-	fcookie.SetPath(removeNewLines(cookie.Path))
-	fcookie.SetDomain(removeNewLines(cookie.Domain))
+	fcookie.SetPath(removeNUL(removeNewLines(cookie.Path)))
+	fcookie.SetDomain(removeNUL(removeNewLines(cookie.Domain)))
 	// only set max age and expiry when SessionOnly is false
 	// i.e. cookie supposed to last beyond browser session
 	// refer: https://developer.mozilla.org/en-US/docs/Web/HTTP/Cookies#define_the_lifetime_of_a_cookie
@@ -1721,12 +1721,12 @@ func (c *DefaultCtx) SendStreamWriter(streamWriter func(*bufio.Writer)) error {
 
 // Set sets the response's HTTP header field to the specified key, value.
 func (c *DefaultCtx) Set(key, val string) {
-	c.fasthttp.Response.Header.Set(key, val)
+	c.fasthttp.Response.Header.Set(key, removeNUL(val))
 }
 
 func (c *DefaultCtx) setCanonical(key, val string) {
 	// Set, unlike SetCanonical, removes CR and LF from the value
-	c.fasthttp.Response.Header.Set(key, val)
+	c.fasthttp.Response.Header.Set(key, removeNUL(val))
 }
 
 // Subdomains returns a string slice of subdomains in the domain name of the request.
@@ -1800,7 +1800,7 @@ func (c *DefaultCtx) String() string {
 // Type sets the Content-Type HTTP header to the MIME type specified by the file extension.
 func (c *DefaultCtx) Type(extension string, charset ...string) Ctx {
 	if len(charset) > 0 {
-		c.fasthttp.Response.Header.SetContentType(utils.GetMIME(extension) + "; charset=" + removeNewLines(charset[0]))
+		c.fasthttp.Response.Header.SetContentType(utils.GetMIME(extension) + "; charset=" + removeNUL(removeNewLines(charset[0])))
 	} else {
 		c.fasthttp.Response.Header.SetContentType(utils.GetMIME(extension))
 	}
